@@ -19,6 +19,7 @@ import LiteFSVerif.Proofs.Wal
 import LiteFSVerif.Gen.Skel
 import LiteFSVerif.Model.ExpectedSkel
 import LiteFSVerif.Proofs.RecoveryPos
+import LiteFSVerif.Proofs.NoPanic
 
 set_option linter.unusedSimpArgs false
 
@@ -201,6 +202,152 @@ theorem C17_valid_page_sizes_aligned (n : Nat) (h : Sqlite.validPageSize n = tru
   unfold Sqlite.validPageSize at h
   simp only [List.contains_cons, List.contains_nil, Bool.or_false, Bool.or_eq_true, beq_iff_eq] at h
   omega
+
+/-- the reader state after playing back the frames of a segment: still consistent, validity flag
+    untouched -/
+theorem frames_reader (j : ByteArray) (liftM : Engine.M Engine.Eng → Except String Engine.Eng) :
+    ∀ (fuel : Nat) (r : JR) (s : Engine.Eng) (out : JR × Engine.Eng), JRInv r → 0 < r.offset →
+      rollbackJournal.segs.frames j liftM fuel r s = .ok out →
+      JRInv out.1 ∧ 0 < out.1.offset ∧ out.1.isValid = r.isValid := by
+  intro fuel
+  induction fuel with
+  | zero =>
+    intro r s out hinv hpos h
+    unfold rollbackJournal.segs.frames at h
+    injection h with h; rw [← h]; exact ⟨hinv, hpos, rfl⟩
+  | succ n ih =>
+    intro r s out hinv hpos h
+    have hp := C17_journal_frame_progress r j hinv hpos
+    have hv := readFrame_isValid r j
+    unfold rollbackJournal.segs.frames at h
+    split at h
+    · rename_i r1 heq
+      rw [heq] at hp hv
+      injection h with h; rw [← h]
+      exact ⟨hp.1, by have := hp.2.1; simp only at this ⊢; omega, hv⟩
+    · rename_i r1 pgno data heq
+      rw [heq] at hp hv
+      have hpos1 : 0 < r1.offset := by have := hp.2.1; simp only at this; omega
+      by_cases hq : pgno = 0 ∨ pgno = 1073741824 / s.pageSize + 1
+      · rw [if_pos hq] at h
+        injection h with h; rw [← h]
+        exact ⟨hp.1, hpos1, hv⟩
+      · rw [if_neg hq] at h
+        by_cases hc : pgno > r1.commit
+        · rw [if_pos hc] at h
+          obtain ⟨a, b, c⟩ := ih r1 s out hp.1 hpos1 h
+          exact ⟨a, b, by rw [c]; exact hv⟩
+        · rw [if_neg hc] at h
+          obtain ⟨s1, _, h⟩ := Sqlite.except_bind_ok h
+          obtain ⟨a, b, c⟩ := ih r1 s1 out hp.1 hpos1 h
+          exact ⟨a, b, by rw [c]; exact hv⟩
+
+/-- the segment loop on arbitrary journal bytes: it ends, and fails only with one of two ordinary
+    errors; once a header was accepted the page size is known -/
+theorem segs_no_panic (j : ByteArray) (liftM : Engine.M Engine.Eng → Except String Engine.Eng) (hl : LiftOK liftM) :
+    ∀ (fuel : Nat) (r : JR) (s : Engine.Eng), JRInv r → (r.isValid = true → s.pageSize ≠ 0) →
+      (∃ out, rollbackJournal.segs j liftM fuel r s = .ok out ∧ (out.1.isValid = true → out.2.pageSize ≠ 0)) ∨
+      rollbackJournal.segs j liftM fuel r s = .error "write to database" ∨
+      rollbackJournal.segs j liftM fuel r s = .error "journal header page size does not match database" := by
+  intro fuel
+  induction fuel with
+  | zero =>
+    intro r s _ hv
+    unfold rollbackJournal.segs
+    exact Or.inl ⟨_, rfl, hv⟩
+  | succ n ih =>
+    intro r s hinv hv
+    unfold rollbackJournal.segs
+    rcases C17_journal_next_total r j hinv with ⟨r', he⟩ | he | ⟨r', hok, _, hinv'⟩
+    · simp only [bind, Except.bind, he, pure, Except.pure]
+      refine Or.inl ⟨_, rfl, ?_⟩
+      intro hval
+      have := next_eof_isValid r j r' he
+      simp only at hval
+      rw [this] at hval
+      exact hv hval
+    · simp [bind, Except.bind, he]
+    · simp only [bind, Except.bind, hok]
+      have hps' : r'.pageSize ≠ 0 := next_ok_pageSize r j r' hok
+      have hs1 : (if s.pageSize = 0 then { s with pageSize := r'.pageSize } else s).pageSize ≠ 0 := by
+        split
+        · exact hps'
+        · assumption
+      have hpos' : 0 < r'.offset := by
+        rcases hinv' with e | e
+        · -- offset 0 is impossible after an accepted header (it moved forward by at least 32 bytes)
+          have := C17_journal_next_total r j hinv
+          rcases this with ⟨x, hx⟩ | hx | ⟨x, hx, hge, _⟩
+          · rw [hok] at hx; cases hx
+          · rw [hok] at hx; cases hx
+          · rw [hok] at hx; injection hx with hx; injection hx with hx; subst hx; omega
+        · have := C17_journal_next_total r j hinv
+          rcases this with ⟨x, hx⟩ | hx | ⟨x, hx, hge, _⟩
+          · rw [hok] at hx; cases hx
+          · rw [hok] at hx; cases hx
+          · rw [hok] at hx; injection hx with hx; injection hx with hx; subst hx; omega
+      rcases frames_no_panic j liftM hl (j.size + 1) r' _ hs1 with ⟨out, hf, hfp⟩ | hf
+      · rw [hf]
+        simp only
+        obtain ⟨a, b, c⟩ := frames_reader j liftM _ r' _ out hinv' hpos' hf
+        have hv1 : out.1.isValid = true → out.2.pageSize ≠ 0 := fun _ => by rw [hfp]; exact hs1
+        exact ih out.1 out.2 a hv1
+      · rw [hf]
+        exact Or.inr (Or.inl rfl)
+
+theorem segs_error (j : ByteArray) (liftM : Engine.M Engine.Eng → Except String Engine.Eng) (hl : LiftOK liftM)
+    (fuel : Nat) (r : JR) (s : Engine.Eng) (hinv : JRInv r) (hv : r.isValid = true → s.pageSize ≠ 0) (m : String)
+    (h : rollbackJournal.segs j liftM fuel r s = .error m) :
+    m = "write to database" ∨ m = "journal header page size does not match database" := by
+  rcases segs_no_panic j liftM hl fuel r s hinv hv with ⟨out, ho, _⟩ | he | he
+  · rw [ho] at h; cases h
+  · rw [he] at h; injection h with h; exact Or.inl h.symm
+  · rw [he] at h; injection h with h; exact Or.inr h.symm
+
+theorem segs_ok (j : ByteArray) (liftM : Engine.M Engine.Eng → Except String Engine.Eng) (hl : LiftOK liftM)
+    (fuel : Nat) (r : JR) (s : Engine.Eng) (hinv : JRInv r) (hv : r.isValid = true → s.pageSize ≠ 0) (out : JR × Engine.Eng)
+    (h : rollbackJournal.segs j liftM fuel r s = .ok out) : out.1.isValid = true → out.2.pageSize ≠ 0 := by
+  rcases segs_no_panic j liftM hl fuel r s hinv hv with ⟨o, ho, hov⟩ | he | he
+  · rw [ho] at h; injection h with h; rw [← h]; exact hov
+  · rw [he] at h; cases h
+  · rw [he] at h; cases h
+
+theorem except_bind_error {ε α β} {x : Except ε α} {f : α → Except ε β} {e : ε} (h : (x >>= f) = .error e) :
+    x = .error e ∨ ∃ a, x = .ok a ∧ f a = .error e := by
+  cases x with
+  | error e' => simp only [bind, Except.bind] at h; injection h with h; exact Or.inl (by rw [h])
+  | ok a => exact Or.inr ⟨a, rfl, h⟩
+
+/-- **journal rollback never panics**: whatever bytes the journal and the database file hold, a
+    failing `rollbackJournal` fails with one of three ordinary errors (no database file, a write
+    the database file refuses — e.g. a record whose data length is not the page size —, a header
+    whose page size contradicts the database's) — never with one of the model's `panic` outcomes
+    (Go: assertion failure, division by zero, negative offset) -/
+theorem C17_rollback_never_panics (s : Engine.Eng) (m : String) (h : rollbackJournal s = .error m) :
+    m = "open database: no such file" ∨ m = "write to database" ∨
+    m = "journal header page size does not match database" := by
+  unfold rollbackJournal at h
+  cases hj : s.journal with
+  | none => rw [hj] at h; simp [pure, Except.pure] at h
+  | some j =>
+    rw [hj] at h
+    simp only at h
+    by_cases hdb : s.dbFile.isNone = true
+    · simp only [hdb, if_true, throw, throwThe, MonadExceptOf.throw, bind, Except.bind] at h
+      injection h with h
+      exact Or.inl h.symm
+    · simp only [hdb, Bool.false_eq_true, if_false] at h
+      have hinv0 : JRInv { pageSize := s.pageSize } := Or.inl rfl
+      have hv0 : ({ pageSize := s.pageSize } : JR).isValid = true → s.pageSize ≠ 0 := by intro c; cases c
+      rcases except_bind_error h with hx | ⟨out, hx, h2⟩
+      · exact Or.inr (segs_error j _ ⟨fun _ => rfl, fun _ => rfl⟩ _ _ s hinv0 hv0 m hx)
+      · have hov := segs_ok j _ ⟨fun _ => rfl, fun _ => rfl⟩ _ _ s hinv0 hv0 out hx
+        rcases except_bind_error h2 with hy | ⟨s2, _, h3⟩
+        · by_cases hval : out.1.isValid = true
+          · obtain ⟨s', hs'⟩ := Recovery.truncateDatabaseFile_ok out.2 out.1.commit (hov hval)
+            simp [hval, hs', pure, Except.pure, bind, Except.bind] at hy
+          · simp [hval, pure, Except.pure] at hy
+        · simp [pure, Except.pure] at h3
 
 /-- journal playback on ARBITRARY journal bytes writes only inside the database's pages: playing
     back one segment never extends the database file beyond the original size recorded in that
